@@ -711,13 +711,19 @@ theorem bodyStep_ok (chunked : Bool) (N : Nat) (x : BodySt) (hx : x.s.inp.length
 theorem readBody_ok (s : Sock) (h : Dic) : ∃ r, readBody s h = .ok r ∧ r.1.inp.length ≤ s.inp.length := by
   unfold readBody
   simp only []
+  have hit : ∀ ch sz, ∃ r, iterate (bodyStep ch) (s.inp.length + 2) ⟨s, sz, []⟩ = .ok r ∧ r.1.inp.length ≤ s.inp.length :=
+    fun ch sz => iterate_ok (bodyStep ch) (fun x => x.s.inp.length) (fun x => x.s.inp.length ≤ s.inp.length)
+        (fun r => r.1.inp.length ≤ s.inp.length) (fun x hx => bodyStep_ok ch s.inp.length x hx)
+        (s.inp.length + 2) ⟨s, sz, []⟩ (Nat.le_refl _) (by simp only []; omega)
   split
   · exact ⟨_, rfl, Nat.le_refl _⟩
   · split
-    · exact ⟨_, rfl, Nat.le_refl _⟩
-    · exact iterate_ok (bodyStep _) (fun x => x.s.inp.length) (fun x => x.s.inp.length ≤ s.inp.length)
-        (fun r => r.1.inp.length ≤ s.inp.length) (fun x hx => bodyStep_ok _ s.inp.length x hx)
-        (s.inp.length + 2) ⟨s, _, []⟩ (Nat.le_refl _) (by simp only []; omega)
+    · exact hit true 0
+    · split
+      · split
+        · exact ⟨_, rfl, Nat.le_refl _⟩
+        · exact hit false _
+      · exact ⟨_, rfl, Nat.le_refl _⟩
 
 /-! ## `HttpRequest::read` and `HttpServer::serve` -/
 
@@ -1471,7 +1477,7 @@ theorem myatoi_zero : myatoi 32 [48] = 0 := by decide
 /-- a body framed by `Content-Length: n` with all `n` bytes pending is read exactly; what follows stays unread -/
 theorem readBody_content_length (s : Sock) (h : Dic) (body rest : Bytes) (he : s.err = 0) (hc : s.closed = false)
     (hi : s.inp = body ++ rest) (hpos : 0 < body.length)
-    (hcl : hasHeader h sContentLength = true)
+    (hcl : hasHeader h sContentLength = true) (hvalid : validLength (header h sContentLength) = true)
     (hval : myatoi 32 (cstr (header h sContentLength)) = (body.length : Int))
     (hte : (cstr (header h sTransferEncoding) == sChunked) = false) :
     readBody s h = .ok ({ s with inp := rest }, body) := by
@@ -1483,7 +1489,8 @@ theorem readBody_content_length (s : Sock) (h : Dic) (body rest : Bytes) (he : s
       have : cstr (header h sContentLength) = [48] := by simpa using hb
       rw [this, myatoi_zero] at hval
       omega
-  simp only [hcl, hnot0, Bool.and_false, Bool.false_eq_true, if_false, Bool.not_true, Bool.false_and, hte, hval]
+  simp only [hcl, hvalid, hnot0, Bool.and_false, Bool.false_eq_true, if_false, Bool.not_true, Bool.false_and, hte, hval,
+    if_true]
   have hfuel : s.inp.length + 2 = (s.inp.length + 1) + 1 := rfl
   rw [hfuel]
   simp only [iterate]
@@ -1550,6 +1557,7 @@ structure WellFormed (q : WfReq) : Prop where
   not_chunked : (cstr (header (hdrDic q.headers) sTransferEncoding) == sChunked) = false
   framing : (q.body = [] ∧ hasHeader (hdrDic q.headers) sContentLength = false) ∨
             (0 < q.body.length ∧ hasHeader (hdrDic q.headers) sContentLength = true ∧
+              validLength (header (hdrDic q.headers) sContentLength) = true ∧
               myatoi 32 (cstr (header (hdrDic q.headers) sContentLength)) = (q.body.length : Int))
 
 theorem read_faithful_aux (q : WfReq) (rest : Bytes) (hw : WellFormed q) :
@@ -1601,11 +1609,11 @@ theorem read_faithful_aux (q : WfReq) (rest : Bytes) (hw : WellFormed q) :
   have hfold : List.foldl (fun d nv => setHeader d nv.fst nv.snd) [] q.headers = hdrDic q.headers := rfl
   simp only [hfold]
   rw [hexp]
-  rcases hw.framing with ⟨hb, hcl⟩ | ⟨hb, hcl, hval⟩
+  rcases hw.framing with ⟨hb, hcl⟩ | ⟨hb, hcl, hvalid, hval⟩
   · rw [readBody_none _ _ hcl hw.not_chunked]
     simp only [ht, hb, List.nil_append]
     rfl
-  · rw [readBody_content_length _ _ q.body rest rfl rfl rfl hb hcl hval hw.not_chunked]
+  · rw [readBody_content_length _ _ q.body rest rfl rfl rfl hb hcl hvalid hval hw.not_chunked]
     simp only [ht]
     rfl
 
@@ -1661,11 +1669,11 @@ theorem read_faithful_sock (s : Sock) (q : WfReq) (rest : Bytes) (hw : WellForme
     unfold expectContinue
     simp only [hw.no_expect, Bool.false_eq_true, if_false]
   rw [hexp]
-  rcases hw.framing with ⟨hb, hcl⟩ | ⟨hb, hcl, hval⟩
+  rcases hw.framing with ⟨hb, hcl⟩ | ⟨hb, hcl, hvalid, hval⟩
   · rw [readBody_none _ _ hcl hw.not_chunked]
     simp only [ht, hb, List.nil_append]
     rfl
-  · rw [readBody_content_length { s with inp := q.body ++ rest } _ q.body rest he hc rfl hb hcl hval hw.not_chunked]
+  · rw [readBody_content_length { s with inp := q.body ++ rest } _ q.body rest he hc rfl hb hcl hvalid hval hw.not_chunked]
     simp only [ht]
     rfl
 
